@@ -8,7 +8,9 @@ Tie (this check): harness/iindex_hist.py `run_check(ctx, "C07")` - the C06 histo
     uint32 1-D arrays, non-empty entries) and the consequences named by the property (abscissae = values present,
     sparsity = share of common cells); the receiver of a call that raised is checked as well;
   * two more streams: every step result goes through a real INDX file (IndxIO.save -> load -> iindex(...), `chk07load`),
-    and from_array is run on every dense array a history reaches (`chk07from`).
+    and from_array is run on every dense array a history reaches (`chk07from`), also WITH a mapping (injective /
+    many-to-one onto a non-common value with interleaving rows / onto the common; with and without counts), also on
+    fresh small arrays.
 Notes: notes/iindex-harness.md."""
 from .. import iindex_hist
 
